@@ -59,6 +59,11 @@ impl Monitor for C07 {
             ("class:arrays_up_to_40", 500),
             ("class:arrays_of_several_hundred_elements", 100),
             ("class:repeat_run_longer_than_16", 50),
+            ("class:components_of_a_graph_with_more_than_16_nodes", 100),
+            ("api:get_range<T>", 341),
+            ("api:set_range", 341),
+            ("api:scatter_assign<T>", 100),
+            ("api:sort_by<T>", 100),
             ("api:gather", 100),
             ("api:scatter", 100),
             ("api:scatter_assign", 100),
@@ -96,14 +101,16 @@ impl Monitor for C07 {
             ctx.class("tournament_merge_order");
             let res = guard(|| connected_components(&src, &tgt, n));
             if let Some((lab, k2)) = must_return(ctx, "vec::connected_components", "tournament", res, || json!({"n": n, "pairs": "tournament order"})) {
-                ctx.check(k2 == kk && same_partition(&lab, &cls), "vec::connected_components/partition-equals-connectivity/value/tournament", || {
+                let dense = lab.len() == n && lab.iter().all(|&l| l < k2) && { let mut seen = vec![false; k2]; lab.iter().for_each(|&l| if l < k2 { seen[l] = true }); seen.iter().all(|&b| b) };
+                ctx.check(k2 == kk && dense && same_partition(&lab, &cls), "vec::connected_components/partition-equals-connectivity/value/tournament", || {
                     json!({"n": n, "observed_k": k2, "expected_k": kk})
                 });
             }
             use open_hypergraphs::array::NaturalArray;
             let res = guard(|| <VecArray<usize> as NaturalArray<VecKind>>::connected_components(&VecArray(src.clone()), &VecArray(tgt.clone()), n));
             if let Some((lab, k2)) = must_return(ctx, "connected_components", "tournament", res, || json!({"n": n})) {
-                ctx.check(k2 == kk && same_partition(&lab.0, &cls), "connected_components/partition-equals-connectivity/value/tournament", || json!({"n": n, "observed_k": k2, "expected_k": kk}));
+                let dense = lab.0.len() == n && lab.0.iter().all(|&l| l < k2) && { let mut seen = vec![false; k2]; lab.0.iter().for_each(|&l| if l < k2 { seen[l] = true }); seen.iter().all(|&b| b) };
+                ctx.check(k2 == kk && dense && same_partition(&lab.0, &cls), "connected_components/partition-equals-connectivity/value/tournament", || json!({"n": n, "observed_k": k2, "expected_k": kk}));
             }
             ctx.nontrivial(&(n, &pairs));
             ctx.sample("tournament_merge_order", || json!({"n": n, "pairs": pairs.len()}));
@@ -111,8 +118,9 @@ impl Monitor for C07 {
         }
         if r.chance(1, 8) {
             // the Vec-specific free functions
-            let n = r.small(8);
-            let ne = if n == 0 { 0 } else { r.small(8) };
+            let wide = r.chance(1, 6);
+            let n = if wide { r.small(120) } else { r.small(8) };
+            let ne = if n == 0 { 0 } else if wide { r.below(2 * n + 1) } else { r.small(8) };
             let src = r.vec_below(ne, n.max(1));
             let tgt = r.vec_below(ne, n.max(1));
             let input = json!({"sources": src, "targets": tgt, "n": n});
@@ -126,7 +134,7 @@ impl Monitor for C07 {
                     json!({"input": input, "observed": lab, "observed_k": kk, "expected_partition": cls})
                 });
             }
-            let sparse: Vec<usize> = { let m = r.small(8); r.vec_below(m, 20) };
+            let sparse: Vec<usize> = { let m = if wide { r.small(300) } else { r.small(8) }; r.vec_below(m, if wide { 1000 } else { 20 }) };
             let res = guard(|| to_dense(&sparse));
             if let Some((dense, kk)) = must_return(ctx, "to_dense", "any", res, || json!({"sparse": sparse})) {
                 let mut d = sparse.clone();
